@@ -177,12 +177,12 @@ fn bad_radix(rng: &mut Prng, text: bool) -> i128 {
 
 const BIN_OPS: [&str; 8] = ["add", "sub", "mul", "div", "rem", "and", "or", "xor"];
 const SC_OPS: [&str; 5] = ["add", "sub", "mul", "div", "rem"];
-const U_INT_OPS: [&str; 15] = [
-    "div_rem", "div_floor", "mod_floor", "div_mod_floor", "div_ceil", "div_euclid", "rem_euclid", "div_rem_euclid",
+const U_INT_OPS: [&str; 16] = [
+    "divides", "div_rem", "div_floor", "mod_floor", "div_mod_floor", "div_ceil", "div_euclid", "rem_euclid", "div_rem_euclid",
     "next_multiple_of", "prev_multiple_of", "gcd", "lcm", "gcd_lcm", "is_multiple_of", "parity",
 ];
-const I_INT_OPS: [&str; 18] = [
-    "div_rem", "div_floor", "mod_floor", "div_mod_floor", "div_ceil", "div_euclid", "rem_euclid", "div_rem_euclid",
+const I_INT_OPS: [&str; 19] = [
+    "divides", "div_rem", "div_floor", "mod_floor", "div_mod_floor", "div_ceil", "div_euclid", "rem_euclid", "div_rem_euclid",
     "next_multiple_of", "prev_multiple_of", "gcd", "lcm", "gcd_lcm", "extended_gcd", "extended_gcd_lcm", "abs_sub",
     "is_multiple_of", "parity",
 ];
@@ -385,7 +385,7 @@ impl<'a> Gen<'a> {
                 Step::new("u.from_f64").i("d", d).i("k", bits as i128)
             }
             10 => Step::new("u.const").i("d", d).i("f", self.rng.below(4) as i128),
-            _ => Step::new("u.from_i").i("d", d).i("a", self.ri()).i("f", self.rng.below(4) as i128),
+            _ => Step::new("u.from_i").i("d", d).i("a", self.ri()).i("f", self.rng.below(8) as i128),
         }
     }
 
@@ -524,14 +524,14 @@ impl<'a> Gen<'a> {
                 }
                 let (t, k) = scalar(self.rng, !u);
                 let o = *self.rng.pick(&SC_OPS);
-                let s = Step::new(&format!("{pre}.sc")).s("o", o).i("t", t).i("k", k).i("f", self.rng.below(5) as i128).i("mv", mv).i("d", d).i("a", a);
+                let s = Step::new(&format!("{pre}.sc")).s("o", o).i("t", t).i("k", k).i("f", self.rng.below(9) as i128).i("mv", mv).i("d", d).i("a", a);
                 vec![self.safe(s)]
             }
             "shift" => {
                 let unsafe_ = self.is_unsafe();
                 let (t, k) = self.shift_amount(unsafe_);
                 let op = if self.rng.chance(1, 2) { "shl" } else { "shr" };
-                vec![Step::new(&format!("{pre}.{op}")).i("t", t).i("k", k).i("f", self.rng.below(5) as i128).i("mv", mv).i("d", d).i("a", a)]
+                vec![Step::new(&format!("{pre}.{op}")).i("t", t).i("k", k).i("f", self.rng.below(6) as i128).i("mv", mv).i("d", d).i("a", a)]
             }
             "mutate" => {
                 let which = self.rng.below(if u { 10 } else { 11 });
@@ -574,7 +574,7 @@ impl<'a> Gen<'a> {
                         } else {
                             *self.rng.pick(&[0i128, 1, 2, 3, 5, 8, 17, 64])
                         };
-                        Step::new(&format!("{pre}.pow")).i("t", t).i("k", k).i("f", self.rng.below(4) as i128).i("mv", mv).i("d", d).i("a", a)
+                        Step::new(&format!("{pre}.pow")).i("t", t).i("k", k).i("f", self.rng.below(5) as i128).i("mv", mv).i("d", d).i("a", a)
                     }
                     2 if u => Step::new("u.powbig").i("f", self.rng.below(4) as i128).i("d", d).i("a", a).i("b", b),
                     3 => Step::new(&format!("{pre}.modpow")).i("d", d).i("a", a).i("b", b).i("c", c),
@@ -615,14 +615,14 @@ impl<'a> Gen<'a> {
                     5 => Step::new(&format!("{pre}.to_prim")).i("a", a).i("t", self.rng.below(28) as i128),
                     6 => Step::new(&format!("{pre}.to_digits")).i("a", a).i("f", self.rng.below(2) as i128),
                     7 => Step::new(&format!("{pre}.sum")).i("d", d).i("k", self.rng.below(64) as i128).i("f", self.rng.below(4) as i128),
-                    _ => Step::new(&format!("{pre}.query")).i("a", a).i("b", b).i("f", self.rng.below(11) as i128).i("k", self.rng.below(400) as i128),
+                    _ => Step::new(&format!("{pre}.query")).i("a", a).i("b", b).i("f", self.rng.below(13) as i128).i("k", self.rng.below(400) as i128),
                 };
                 vec![s]
             }
             "convert" => {
                 // movement between the two register files
                 let s = if self.rng.chance(1, 2) {
-                    Step::new("u.from_i").i("d", self.ru()).i("a", self.ri()).i("f", self.rng.below(4) as i128)
+                    Step::new("u.from_i").i("d", self.ru()).i("a", self.ri()).i("f", self.rng.below(8) as i128)
                 } else if self.rng.chance(1, 2) {
                     Step::new("i.from_u").i("d", self.ri()).i("a", self.ru()).i("f", self.rng.below(2) as i128)
                 } else {
@@ -655,6 +655,25 @@ impl<'a> Gen<'a> {
         };
         let asn = |o: &str, f: i128| Step::new(&format!("{pre}.asn")).s("o", o).i("f", f).i("d", dst).i("b", other).i("safe", 1);
         let mut v = vec![copy];
+        if self.rng.chance(1, 10) {
+            // primitive -> big -> the same and the neighbouring primitive types (MIN / MAX edges of every type)
+            let (t, k) = scalar(self.rng, !u);
+            let mut v = vec![Step::new(&format!("{pre}.from_prim")).i("d", dst).i("f", 0).i("t", t).i("k", k)];
+            for tt in [t, (t + 1) % 12, 12, 14 + self.rng.below(14) as i128] {
+                v.push(Step::new(&format!("{pre}.to_prim")).i("a", dst).i("t", tt));
+            }
+            return v;
+        }
+        if !u && self.rng.chance(1, 8) {
+            // x := k; x := -x; x += k (scalar forms): the exact cancellation must give a canonical zero
+            let (t, k) = scalar(self.rng, true);
+            let f = *self.rng.pick(&[0i128, 1, 2, 3, 4, 5, 6, 7, 8]);
+            return vec![
+                Step::new("i.from_prim").i("d", dst).i("f", 0).i("t", t).i("k", k),
+                Step::new("i.unary").s("o", "neg").i("f", 1).i("mv", 1).i("d", dst).i("a", dst),
+                Step::new("i.sc").s("o", "add").i("t", t).i("k", k).i("f", f).i("mv", 1).i("d", dst).i("a", dst),
+            ];
+        }
         match self.rng.below(7) {
             0 => {
                 v.push(asn("add", self.rng.below(2) as i128));
